@@ -26,7 +26,12 @@ class CSSCaptureHTMLParser(html.parser.HTMLParser):
     """CSSCapture helper: Parse given data for link and style elements"""
 
     curtag = ''
-    sheets = []  # (type, [atts, cssText])
+
+    def __init__(self, *args, **kwargs):
+        super().__init__(*args, **kwargs)
+        # per parser: a class attribute would collect the sheets of
+        # every document parsed in the process
+        self.sheets = []  # (type, [atts, cssText])
 
     def _loweratts(self, atts):
         return {a.lower(): v.lower() for a, v in atts}
@@ -232,6 +237,8 @@ class CSSCapture:
         self._log.info('\nCapturing CSS from URL:\n    %s\n', url)
         self._nonparsed = {}
         self.stylesheetlist = cssutils.stylesheets.StyleSheetList()
+        # sheets found in a document captured earlier are not reported again
+        self._htmlparser = CSSCaptureHTMLParser()
 
         # used to save inline styles
         scheme, loc, path, query, fragment = urllib.parse.urlsplit(url)
